@@ -46,7 +46,9 @@ func Check(c *core.Ctx, id string) {
 		{"h2_dev_credit", mcCfg(2, 1, "1", all, false, false, true, "{}"), "CreditExact"},
 	}
 	if c.Thorough() {
-		runs[0].cfg = mcCfg(3, 2, "1", all, false, false, false, "{1}")
+		// measured: (2, 2, {1}) 4.5 M states in 70 s; (3, 1, {}) 28 M states in 6 min; (3, 2, {1}) does not finish in 25 min
+		runs[0].cfg = mcCfg(2, 2, "1", all, false, false, false, "{1}")
+		runs = append(runs, run{"h2_ref_long", mcCfg(3, 1, "1", all, false, false, false, "{}"), ""})
 	}
 	for _, r := range runs {
 		os.WriteFile(filepath.Join(c.Work, r.name+".cfg"), []byte(r.cfg), 0o644)
